@@ -109,6 +109,31 @@ def r1_collect_error(ctx):
     ctx.ob("R1", g, "collect_errors forwards every element to collect_error", ok, "loop calls collect_error(..., schema_error, ...)" if ok else "elements dropped")
 
 
+def _helper_forwards(f, c):
+    """If call `c` (made in f) goes to a helper next to f - a closure of f or of an enclosing function, a private function
+    of the module, a private method of the class - that collects / wraps one of its parameters: how it does so."""
+    last = callee_last(c)
+    hlp = None
+    if isinstance(c.func, ast.Attribute) and isinstance(c.func.value, ast.Name) and c.func.value.id in ("self", "cls") and f.cls is not None \
+            and last.startswith("_"):
+        hlp = f.cls.lookup(last)
+    elif isinstance(c.func, ast.Name):
+        g = f
+        while g is not None and hlp is None:
+            hlp = g.nested.get(last)
+            g = getattr(g, "parent", None)
+        if hlp is None and last.startswith("_"):
+            hlp = f.module.functions.get(last)
+    if hlp is None or hlp.module is not f.module:
+        return None
+    params = set(hlp.params)
+    for c2 in calls_in(hlp.node, nested=True):
+        l2 = callee_last(c2)
+        if l2 in ("CoreCheckResult", "SchemaError", "SchemaErrors", "collect_error", "collect_errors") and (names_in(c2) & params):
+            return "wrapped in CoreCheckResult" if l2 == "CoreCheckResult" else ("collected" if l2.startswith("collect") else "converted into a new schema error")
+    return None
+
+
 def _handler_forwards(f, h: ast.ExceptHandler):
     """How a handler of SchemaError(s) treats the caught error."""
     name = h.name
@@ -124,19 +149,11 @@ def _handler_forwards(f, h: ast.ExceptHandler):
             uses.append("wrapped in CoreCheckResult")
         elif last in ("SchemaError", "SchemaErrors", "_parse_schema_error", "_handle_schema_error") and mentions:
             uses.append("converted into a new schema error")
-        elif mentions and last.startswith("_"):
-            # a private helper next to the function that wraps / collects the error it is given
-            hlp = None
-            if isinstance(c.func, ast.Attribute) and isinstance(c.func.value, ast.Name) and c.func.value.id in ("self", "cls") and f.cls is not None:
-                hlp = f.cls.lookup(last)
-            elif isinstance(c.func, ast.Name):
-                hlp = f.module.functions.get(last)
-            if hlp is not None and hlp.module is f.module:
-                params = set(hlp.params)
-                for c2 in calls_in(hlp.node, nested=True):
-                    l2 = callee_last(c2)
-                    if l2 in ("CoreCheckResult", "SchemaError", "SchemaErrors", "collect_error", "collect_errors") and (names_in(c2) & params):
-                        uses.append("wrapped in CoreCheckResult" if l2 == "CoreCheckResult" else ("collected" if l2.startswith("collect") else "converted into a new schema error"))
+        elif mentions:
+            # a helper next to the function that wraps / collects the error it is given
+            how = _helper_forwards(f, c)
+            if how:
+                uses.append(how)
     for s in ast.walk(h):
         if isinstance(s, (ast.ListComp, ast.GeneratorExp)) and name is not None and any(name in names_in(g.iter) for g in s.generators):
             if any(callee_last(c) in ("CoreCheckResult", "SchemaError") for c in calls_in(s.elt, nested=True)) or \
@@ -146,7 +163,7 @@ def _handler_forwards(f, h: ast.ExceptHandler):
             uses.append("raised onwards")
         if isinstance(s, ast.For) and name is not None and name in names_in(s.iter):
             for c in calls_in(s):
-                if callee_last(c) in ("collect_error", "append", "CoreCheckResult", "SchemaError"):
+                if callee_last(c) in ("collect_error", "append", "CoreCheckResult", "SchemaError") or _helper_forwards(f, c):
                     uses.append("each error forwarded")
     return ", ".join(sorted(set(uses)))
 
